@@ -98,7 +98,7 @@ func identName(base string, style int) string {
 	return base
 }
 
-var c01Locations = []string{"flat", "nested", "maven-main", "maven-test", "suffix-Test", "suffix-Tests", "gitignored", "testData", "non-java", "gitignored-file", "gitignored-glob", "gitignored-bare-dir", "beside-gitignored-dir"}
+var c01Locations = []string{"flat", "nested", "maven-main", "maven-test", "suffix-Test", "suffix-Tests", "gitignored", "testData", "non-java", "gitignored-file", "gitignored-glob", "gitignored-bare-dir", "beside-gitignored-dir", "maven-test-root", "maven-test-lookalike"}
 
 // c01Unit generates one conventional compilation unit.
 func c01Unit(c *engine.C, idx int, forceMain bool) (cls *jg.Class, relPath string, isMain bool, needGitignore string) {
@@ -270,6 +270,12 @@ func c01Unit(c *engine.C, idx int, forceMain bool) (cls *jg.Class, relPath strin
 		relPath, isMain = filepath.Join("src/main/java", pkgPath, file), true
 	case "maven-test":
 		relPath = filepath.Join("src/test/java", pkgPath, file)
+	case "maven-test-root":
+		// a test-tree file lying directly in the source-set root (no package directory)
+		relPath = filepath.Join("src/test/java", file)
+	case "maven-test-lookalike":
+		// a main file below a directory that merely resembles the Maven test tree
+		relPath, isMain = filepath.Join("src/test/javax", pkgPath, file), true
 	case "suffix-Test":
 		relPath = name + "Test.java"
 	case "suffix-Tests":
